@@ -252,6 +252,22 @@ pub fn check(case: &Case, obs: &Obs) -> CheckResult {
             Ok(()) => ensure!(dev.errors.is_empty(), "hook-on-success", "message {mi} {txt:?}: the error hook was called for a successful message"),
             Err(e) => ensure!(dev.errors.len() == 1 && dev.errors[0] == *e, "hook-mismatch", "message {mi} {txt:?}: run returned {e:?}, the error hook saw {:?}", dev.errors),
         }
+        // the same message once more with ONE of the designated handlers refusing its form with -113 itself (what the
+        // provided Command::event / query stubs of a query-only / command-only leaf do): the message stops there with
+        // that error; no other node is tried in its place and no later unit runs
+        if negative_at.is_none() && n >= 1 && want_calls.len() == n {
+            let j = intents.first().map_or(0, |it| it.mask as usize) % n;
+            let mut plans = vec![crate::rec::UnitPlan::greedy(); n];
+            plans[j].fail = Some(crate::rec::ErrSpec { code: -113, custom: false, extended: false });
+            let mut dev2 = LogDev::with_plan(plans);
+            let mut resp2: Vec<u8> = Vec::new();
+            let res2 = real.root.run(&r.bytes, &mut dev2, &mut Context::default(), &mut resp2);
+            let got2: Vec<(usize, bool)> = dev2.calls.iter().map(|c| (c.leaf, c.query)).collect();
+            obs.label("message with a handler that refuses its form");
+            ensure!(got2 == want_calls[..=j], "wrong-handler", "message {mi} {txt:?} with the handler of unit {j} returning -113: handlers that ran (leaf, query) = {got2:?}, expected {:?} and nothing after", &want_calls[..=j]);
+            ensure!(matches!(&res2, Err(e) if e.get_code() == -113), "refusal-lost", "message {mi} {txt:?} with the handler of unit {j} returning -113: run returned {:?}", res2.map_err(|e| e.get_code()));
+            ensure!(dev2.errors.len() == 1, "hook-mismatch", "message {mi} {txt:?} with the handler of unit {j} returning -113: the error hook saw {:?}", dev2.errors);
+        }
         prev_path = end_path;
     }
     obs.nontrivial_if(nontrivial, case);
